@@ -133,6 +133,8 @@ KINDS = {
     "ka": dict(base=1320, cls=KeepAlivePdu, mk=_ka, fields=_ka_fields, nargs=3, name="KeepAlivePdu"),
 }
 BASE2KIND = {k["base"]: n for n, k in KINDS.items()}
+XOR_KIND = {1334: "eof", 1335: "ack", 1336: "prompt", 1337: "ka"}
+XOR_OP = {v: k for k, v in XOR_KIND.items()}
 
 
 def _kind_of(op):
@@ -160,7 +162,11 @@ def impl(op, a):
             b = p.pack()
             sfx = a[k["nargs"]] if len(a) > k["nargs"] else []
             p2 = k["cls"].unpack(bytes(b) + bytes(sfx))
-            return [[int(p2 == p)]] + k["fields"](p2) + [_pack_res(p2)]
+            try:
+                eq = [int(p2 == p)]
+            except Exception as e:  # noqa  (EntityIdTlv.__eq__ can raise)
+                eq = [2, core.canon_code(core.classify_exception(e))]
+            return [eq] + k["fields"](p2) + [_pack_res(p2)]
         if sub == 5 and kn == "eof":
             p, _ = _eof(a)
             for o in a[5:]:
@@ -171,6 +177,10 @@ def impl(op, a):
             for o in a[3:]:
                 p.file_flag = _enum(LargeFileFlag, o[0] if o else 0)
             return _ka_fields(p) + [[p.packet_len], _pack_res(p), _pack_res(p)]
+    if 1334 <= op <= 1337:
+        k = KINDS[XOR_KIND[op]]
+        e = list(a[1]) + [0] * (len(a[0]) - len(a[1]))
+        return k["fields"](k["cls"].unpack(bytes(x ^ y for x, y in zip(a[0], e))))
     if op == 1326:
         f = FileDirectivePduBase.unpack(bytes(a[0]))
         return h5._fields(f.pdu_header) + [[int(f.directive_type), f.header_len, f.directive_param_field_len]]
@@ -494,6 +504,24 @@ def streams(tier, rng):
         cases.append((1329, [ids, flags, raw, [rng.randrange(0, 22)]]))
         cases.append((1328, [ids, flags, [rng.choice(SIZES)]]))
     yield "file_directive_base", "exact", cases
+    # 8b. C04: CRC-flagged packed PDUs with every single-bit flip and with bursts of up to 16 bits, at every bit
+    #     offset outside octets 1..3 and the CRC flag bit; also flips inside those fields (correspondence only)
+    cases = []
+    for _ in range(30 if big else 5):
+        for kn in KINDS:
+            a = _rand_pdu(kn, rng, crc=1)
+            p = lay(kn, a)
+            nb = 8 * len(p)
+            for pos in range(nb):
+                for blen in ([1] + ([rng.choice([2, 3, 8, 15, 16])] if rng.random() < 0.5 else [])) if not big else (1, 2, 3, 8, 15, 16):
+                    if pos + blen > nb:
+                        continue
+                    bits = [pos, pos + blen - 1] + [q for q in range(pos + 1, pos + blen - 1) if rng.random() < 0.5]
+                    e = [0] * len(p)
+                    for q in set(bits):
+                        e[q // 8] |= 0x80 >> (q % 8)
+                    cases.append((XOR_OP[kn], [p, e]))
+    yield "crc_corruption", "exact", cases
     # 9. garbage: random octets biased to directive headers with valid widths, consistent lengths and right CRC
     cases = []
     for _ in range(12000 if big else 1500):
@@ -569,6 +597,20 @@ def oracle(case, ires, sres):
     err = ires[0][0] == 1
     code = ires[0][1] if err else None
     kn, sub = _kind_of(op)
+    if kn is None and op in XOR_KIND:
+        p, e = a
+        name = KINDS[XOR_KIND[op]]["name"]
+        if not any(e) or any(e[1:4]) or (e[0] & 2) or not (p[0] & 2):
+            if err and not DOC(code):
+                return ("C06/%s.unpack/undocumented-error" % name, "unpack(%s) escaped with %s" % ([x ^ y for x, y in zip(p, e)][:40], core.ERR_NAMES.get(code, code)))
+            return None
+        setbits = [8 * i + j for i, x in enumerate(e) for j in range(8) if x & (0x80 >> j)]
+        if setbits[-1] - setbits[0] >= 16:
+            return None
+        if not err or not DOC(code):
+            return ("C06/%s.unpack/corrupted-accepted" % name,
+                    "CRC-flagged PDU %s with bits %s flipped was %s" % (p[:40], setbits, "accepted" if not err else core.ERR_NAMES.get(code, code)))
+        return None
     if kn is None:
         if op == 1326 and err and not DOC(code):
             return ("C06/FileDirectivePduBase.unpack/undocumented-error", "unpack(%s) escaped with %s" % (a[0][:40], core.ERR_NAMES.get(code, code)))
@@ -645,6 +687,9 @@ def oracle(case, ires, sres):
             return ("C06/%s.unpack/length%s" % (name, tag), "decoded header %s lens %s, packed PDU has %d octets (header %d)" % (hd, lens, len(exp), hl))
         if idsr != a[0] or flagsr != [a[1][0], a[1][1], a[1][2], exp[0] >> 3 & 1, a[1][4]]:
             return ("C06/%s.unpack/header-fields%s" % (name, tag), "%s %s decoded as %s %s" % (a[0], a[1], idsr, flagsr))
+        if eq[0] == 2:
+            return ("C06/%s.__eq__/raises" % name, "comparing the decoded PDU with the original raised %s (fault location %s)"
+                    % (core.ERR_NAMES.get(eq[1], eq[1]), a[4] if kn == "eof" else None))
         if eq != [1]:
             return ("C06/%s.__eq__/roundtrip%s" % (name, tag), "decoded PDU not equal to the original")
         if repack != [0] + exp:
